@@ -16,7 +16,7 @@ Streams
   spec   : Lean `mem` vs the Python reference membership on the recorded (value, type) pairs of the mini stream.
 Known-class tags of `exec` failures come from the component properties (C02 / C09 / C03 ...): see `classify`.
 """
-import ast, copy, json, os, random, sys, time, traceback
+import ast, copy, itertools, json, os, random, sys, time, traceback
 
 from harness.common import lean, pya, values as V, gen_values as G
 from harness import universe as U
@@ -3634,6 +3634,288 @@ def match_stream(ctx, stats, feats, on_exec):
         for f in fl:
             f["module"] = id(fns)
             f["stream"] = "match"
+        if fl:
+            modules[id(fns)] = fns
+        failures += fl
+    return failures, modules
+
+# ------------------------------------------------------------------ the COND stream: comparison chains in every kind of test
+def _lits(*vs):
+    return Un(*[K(v) for v in vs])
+
+
+COND_PARAMS = [
+    # (declared type, kind, argument objects); kind: I orderable int, O Optional int, S str, P Optional str, L list[int]
+    (_lits(0, 1, 2), "I", [_I(0), _I(1), _I(2)]),
+    (_lits(1, 5), "I", [_I(1), _I(5)]),
+    (_lits(0, 1), "I", [_I(0), _I(1)]),
+    (_lits(1, 2, 3), "I", [_I(1), _I(2), _I(3)]),
+    (T(INT), "I", [_I(0), _I(1), _I(2), _I(4)]),
+    (Un(T(INT), NONE_T), "O", [("none",), _I(0), _I(1), _I(3)]),
+    (Un(K(1), K(2), NONE_T), "O", [("none",), _I(1), _I(2)]),
+    (Un(K(0), NONE_T), "O", [("none",), _I(0)]),
+    (_lits("a", "b"), "S", [_S("a"), _S("b")]),
+    (T(STR), "S", [_S(""), _S("a"), _S("b")]),
+    (Un(K("a"), K("b"), NONE_T), "P", [("none",), _S("a"), _S("b")]),
+    (("generic", LIST, [T(INT)]), "L", [("list", []), ("list", [_I(1)]), ("list", [_I(1), _I(2)])]),
+]
+ORDER_OPS = ["<", "<=", ">", ">="]
+EQ_OPS = ["==", "!="]
+IS_OPS = ["is", "is not"]
+IN_OPS = ["in", "not in"]
+
+
+class CondGen:
+    """One function whose tests are comparison chains (1-3 operators, all ten operators) over variables, literals, None,
+    len(var), other variables and calls; used in if / elif / else, `not (...)`, while / while-not, conditional
+    expressions, asserts, early returns and and/or trees with opaque operands. Every variable is read in every branch
+    and after the statement."""
+
+    def __init__(self, rng, name, feats):
+        self.rng, self.name, self.feats = rng, name, feats
+        self.counter = 0
+
+    def feat(self, k):
+        self.feats[k] = self.feats.get(k, 0) + 1
+
+    def vars_of(self, *kinds):
+        return [n for n, k in self.vars if k in kinds]
+
+    def operand(self, kind):
+        """An operand of the given kind: (source, is a bare variable / literal / other)."""
+        rng = self.rng
+        r = rng.random()
+        if kind == "I":
+            vs = self.vars_of("I")
+            if vs and r < 0.45:
+                return rng.choice(vs)
+            if r < 0.75:
+                return str(rng.choice([0, 1, 2, 3, 5]))
+            ls = self.vars_of("L")
+            if ls and r < 0.85:
+                self.feat("operand_len")
+                return "len(%s)" % rng.choice(ls)
+            if vs and r < 0.95:
+                self.feat("operand_call")
+                return rng.choice(["inc(%s)", "ident(%s)"]) % rng.choice(vs)
+            self.feat("operand_call")
+            return "zero()"
+        if kind == "O":
+            vs = self.vars_of("O")
+            if vs and r < 0.6:
+                return rng.choice(vs)
+            self.feat("operand_None")
+            return "None"
+        if kind == "S":
+            vs = self.vars_of("S")
+            if vs and r < 0.5:
+                return rng.choice(vs)
+            if vs and r < 0.6:
+                self.feat("operand_call")
+                return "ident(%s)" % rng.choice(vs)
+            return repr(rng.choice(["a", "b", ""]))
+        if kind == "P":
+            vs = self.vars_of("P")
+            if vs and r < 0.6:
+                return rng.choice(vs)
+            return "None"
+        raise ValueError(kind)
+
+    def container(self, fam):
+        rng = self.rng
+        ls = self.vars_of("L")
+        if fam == "I" and ls and rng.random() < 0.25:
+            return rng.choice(ls)
+        pool = [0, 1, 2, 3, 5] if fam == "I" else ["a", "b", ""]
+        elts = [repr(x) for x in rng.sample(pool, rng.choice([1, 2, 2, 3]))]
+        if rng.random() < 0.25:
+            elts.append("None")
+        form = rng.choice(["tuple", "tuple", "list", "set"])
+        if form == "tuple":
+            return "(%s%s)" % (", ".join(elts), "," if len(elts) == 1 else "")
+        if form == "list":
+            return "[%s]" % ", ".join(elts)
+        return "{%s}" % ", ".join(elts)
+
+    def chain(self):
+        rng = self.rng
+        fam = "I" if (rng.random() < 0.75 or not self.vars_of("S", "P")) else "S"
+        opt = "O" if fam == "I" else "P"
+        n_ops = rng.choice([1, 2, 2, 2, 3, 3])
+        left_kind = fam if (rng.random() < 0.7 or not self.vars_of(opt)) else opt
+        parts = [self.operand(left_kind)]
+        for i in range(n_ops):
+            last = i == n_ops - 1
+            ops = list(EQ_OPS) * 2 + IS_OPS
+            if left_kind == fam:
+                ops += ORDER_OPS * 2
+            if last:
+                ops += IN_OPS
+            op = rng.choice(ops)
+            if op in ORDER_OPS:
+                right_kind = fam
+            elif op in IN_OPS:
+                parts += [op, self.container(fam)]
+                break
+            else:
+                right_kind = opt if (rng.random() < 0.35) else fam
+            right = self.operand(right_kind)
+            if op in IS_OPS and right not in ("None",) and not right.isidentifier():
+                # `is` against an int / str literal or a call: use None or a variable instead
+                cands = self.vars_of(fam, opt)
+                right, right_kind = (rng.choice(cands), fam) if cands and rng.random() < 0.5 else ("None", opt)
+                if right in self.vars_of(opt):
+                    right_kind = opt
+            if op in IS_OPS and parts[-1] not in ("None",) and not parts[-1].isidentifier():
+                op = "==" if op == "is" else "!="
+            parts += [op, right]
+            left_kind = right_kind
+        self.feat("chain_len_%d" % ((len(parts) - 1) // 2))
+        for o in parts[1::2]:
+            self.feat("op_" + o.replace(" ", "_"))
+        return "%s" % " ".join(parts)
+
+    def opaque(self):
+        rng = self.rng
+        ls = self.vars_of("L")
+        c = ["c", "c", "not c", "zero() == 0", "parse_int('x') is None"]
+        if ls:
+            c.append("len(%s) > 1" % rng.choice(ls))
+        self.feat("opaque_operand")
+        return rng.choice(c)
+
+    def cond(self, depth=2):
+        rng = self.rng
+        r = rng.random()
+        if depth == 0 or r < 0.5:
+            return self.chain()
+        if r < 0.65:
+            self.feat("cond_not")
+            return "not (%s)" % self.cond(depth - 1)
+        op = rng.choice(["and", "or"])
+        a = self.cond(depth - 1)
+        b = self.opaque() if rng.random() < 0.4 else self.cond(depth - 1)
+        if rng.random() < 0.5:
+            a, b = b, a
+        self.feat("cond_" + op)
+        return "(%s %s %s)" % (a, op, b)
+
+    def reads(self, ind):
+        self.counter += 1
+        return "%sv%d = (%s,)" % (ind, self.counter, ", ".join(n for n, _ in self.vars))
+
+    def update(self, ind):
+        """A statement that changes the state (so that loops end): assignment from a literal, a call result, or a break."""
+        rng = self.rng
+        r = rng.random()
+        iv = self.vars_of("I")
+        if r < 0.3 or not iv:
+            return ind + "break"
+        v = rng.choice(iv)
+        if r < 0.65:
+            return "%s%s = %d" % (ind, v, rng.choice([0, 1, 2, 5]))
+        if r < 0.85:
+            return "%s%s = inc(%s)" % (ind, v, v)
+        ov = self.vars_of("O")
+        if ov:
+            return "%s%s = None" % (ind, rng.choice(ov))
+        return ind + "break"
+
+    def statement(self, ind):
+        rng = self.rng
+        shape = rng.choice(["if", "if", "if", "elif", "ifnot", "while", "whilenot", "ifexp", "assert", "return", "if_in_loop"])
+        self.feat("shape_" + shape)
+        out = []
+        i2 = ind + "    "
+        if shape in ("if", "ifnot"):
+            c = self.cond()
+            out.append("%sif %s:" % (ind, c if shape == "if" else "not (%s)" % c))
+            out.append(self.reads(i2))
+            out.append(ind + "else:")
+            out.append(self.reads(i2))
+        elif shape == "elif":
+            out.append("%sif %s:" % (ind, self.cond()))
+            out.append(self.reads(i2))
+            out.append("%selif %s:" % (ind, self.cond()))
+            out.append(self.reads(i2))
+            out.append(ind + "else:")
+            out.append(self.reads(i2))
+        elif shape in ("while", "whilenot"):
+            c = self.cond(1)
+            out.append("%swhile %s:" % (ind, c if shape == "while" else "not (%s)" % c))
+            out.append(self.reads(i2))
+            out.append(self.update(i2))
+            if rng.random() < 0.3:
+                out.append(ind + "else:")
+                out.append(self.reads(i2))
+        elif shape == "ifexp":
+            self.counter += 1
+            names = ", ".join(n for n, _ in self.vars)
+            out.append("%sv%d = ((%s, 0) if %s else (%s, 1))" % (ind, self.counter, names, self.cond(1), names))
+        elif shape == "assert":
+            out.append("%sassert %s" % (ind, self.cond()))
+        elif shape == "return":
+            out.append("%sif %s:" % (ind, self.cond()))
+            out.append(self.reads(i2))
+            out.append(i2 + "return 1")
+        else:
+            iv = self.vars_of("L")
+            out.append("%sfor _i in %s:" % (ind, rng.choice(["(0, 1)", "(0, 1, 2)"] + iv)))
+            out.append("%sif %s:" % (i2, self.cond(1)))
+            out.append(self.reads(i2 + "    "))
+            out.append(self.update(i2 + "    "))
+            out.append(i2 + "else:")
+            out.append(self.reads(i2 + "    "))
+        out.append(self.reads(ind))
+        return out
+
+    def generate(self):
+        rng = self.rng
+        n_par = rng.choice([2, 3, 3, 4])
+        chosen = [rng.choice(COND_PARAMS) for _ in range(n_par)]
+        if not any(k == "I" for _, k, _ in chosen):
+            chosen[0] = rng.choice(COND_PARAMS[:4])
+        self.vars = [("p%d" % i, k) for i, (_, k, _) in enumerate(chosen)]
+        head = "def %s(%s, c: bool) -> int:" % (self.name, ", ".join("p%d: %s" % (i, ty_src(t)) for i, (t, _, _) in enumerate(chosen)))
+        lines = []
+        if rng.random() < 0.4:
+            # a local whose value is a union of literals
+            a, b = rng.sample([0, 1, 2, 5], 2)
+            lines.append("    w = %d if c else %d" % (a, b))
+            self.vars.append(("w", "I"))
+            self.feat("local_from_literals")
+        for _ in range(rng.choice([1, 1, 2])):
+            lines += self.statement("    ")
+        lines.append("    return 0")
+        src = "\n".join([head] + lines)
+        combos = list(itertools.product(*[objs for _, _, objs in chosen]))
+        rng.shuffle(combos)
+        argsets = [list(cmb) + [("bool", rng.choice([0, 1]))] for cmb in combos[:16]]
+        return {"name": self.name, "ptypes": [t for t, _, _ in chosen] + [T(BOOL)], "ret": T(INT), "src": src, "num_eq": False}, argsets
+
+
+def cond_stream(ctx, stats, feats, on_exec):
+    rng = ctx.rng
+    n_fns = ctx.n(300, 6000)
+    per_mod = 25
+    failures, modules = [], {}
+    for m in range((n_fns + per_mod - 1) // per_mod):
+        fns, args = [], {}
+        for i in range(per_mod):
+            f, a = CondGen(rng, "k%d" % i, feats).generate()
+            fns.append(f)
+            args[f["name"]] = a
+        try:
+            fl, _ = judge_module(fns, args, stats, on_exec)
+        except Exception as e:
+            ctx.notes.append("cond module %d: %s" % (m, traceback.format_exc()[-600:]))
+            ctx.tag("module_crash_" + type(e).__name__)
+            continue
+        if m == 0 and fns:
+            ctx.sample({"cond_function": fns[0]["src"]})
+        for f in fl:
+            f["module"] = id(fns)
+            f["stream"] = "cond"
         if fl:
             modules[id(fns)] = fns
         failures += fl
